@@ -25,6 +25,7 @@ N = int(opt('--n', '400')); SEED = int(opt('--seed', '1')); WORKERS = int(opt('-
 ONLY_FILES = [f for f in opt('--files', '').split(',') if f]
 ONLY_PROPS = [p for p in opt('--props', '').split(',') if p]
 OUT = opt('--out', '/verif/selftest/mutation_report.json')
+ONLY_OPS = [o for o in opt('--ops', '').split(',') if o]
 
 props = [json.loads(l) for l in open('/verif/properties.jsonl')]
 file_props = {}
@@ -103,6 +104,8 @@ rnd = random.Random(SEED)
 allc = []
 for f in sorted(file_props):
     cs = candidates(f)
+    if ONLY_OPS:
+        cs = [c for c in cs if c[0] in ONLY_OPS]
     # balance operator classes within a file
     by = {}
     for c in cs:
